@@ -82,7 +82,7 @@ pub fn make_queries(terms: &[Tm], rng: &mut Rng, max: usize) -> Vec<Query> {
 /// executes the ops on a new session and observes; Err on a library panic
 pub fn execute_and_observe(ops: &[Op], run: &Run, naming: u32, hash_seed: u64, terms: &[Tm], queries: &[Query]) -> Result<Observed, crate::exec::PanicInfo> {
     if run.get("analysis") != 0 {
-        execute_and_observe_n(EGraph::new(crate::analysis::SimAn { p: 3, modify: false }), ops, run, naming, hash_seed, terms, queries)
+        execute_and_observe_n(EGraph::new(crate::analysis::SimAn { p: 3, modify: run.get("analysis") == 2 }), ops, run, naming, hash_seed, terms, queries)
     } else {
         execute_and_observe_n(EGraph::new(()), ops, run, naming, hash_seed, terms, queries)
     }
